@@ -23,6 +23,10 @@ META = {
             "as another registered type / ErrorResponse); strings must be valid UTF-8, interface{} values JSON-native (float64, not int), "
             "json.RawMessage compact; canonicalisation: empty slice/map in an omitempty field == nil, nil RawMessage == null, RawMessage "
             "compared as JSON, InitializeRequestArguments.PathFormat \"\" == \"path\" (decoder default).",
+    "glue": "The server loop of `wa dap` (internal/dap handleConnection/handleRequest/sendFromQueue) is driven on the real code over net.Pipe "
+            "under 15 chunkings of the request stream (oracle only: one response per request with its request_seq/command/success, complete "
+            "frames, no crash). Requests outside dispatchRequest's switch (e.g. modules) end the mock server with log.Fatalf by design and are "
+            "not sent. Known finding srv:error-response-nil-pointer-dereference (proposed_fixes/C26-dap-error-response-nil-deref.diff).",
     "technique": "Lean 4 proof over regenerated constants/tables + hand-written framing/dispatch model, differential correspondence, "
                  "reflection-driven round-trip exploration of every registered type on the real code",
 }
@@ -170,6 +174,85 @@ def gen_ops(ctx, types):
     return ops
 
 
+# ------------------------------------------------------------------ the real server glue (internal/dap)
+SRV_OK = {"initialize", "launch", "disconnect", "setBreakpoints", "setExceptionBreakpoints", "configurationDone", "continue",
+          "stackTrace", "scopes", "variables", "threads"}
+# kinds the server answers with newErrorResponse(...) ("... is not yet supported")
+SRV_ERR = ["attach", "terminate", "restart", "setFunctionBreakpoints", "next", "stepIn", "stepOut", "stepBack", "reverseContinue",
+           "restartFrame", "goto", "pause", "setVariable", "setExpression", "source", "terminateThreads", "evaluate", "stepInTargets",
+           "gotoTargets", "completions", "exceptionInfo", "loadedSources", "dataBreakpointInfo", "setDataBreakpoints", "readMemory",
+           "disassemble", "cancel", "breakpointLocations"]
+SRV_SEQS = ["initialize threads stackTrace",
+            "initialize launch setBreakpoints:3 setExceptionBreakpoints scopes variables threads disconnect",
+            "threads threads threads threads threads threads",
+            "initialize:5000 threads launch",                       # one message larger than the server's 4096-byte bufio buffer
+            "initialize setBreakpoints:2 configurationDone continue"]
+SRV_MODES = ["all", "each", "2x", "1", "2", "3", "7", "64", "4096", "hdr", "body", "plus1", "plus7", "plus20", "plus40"]
+
+
+def gen_srv_ops(ctx):
+    """deterministic: request sequences delivered to handleConnection under every chunking"""
+    ops = []
+    for seq in SRV_SEQS:
+        for mode in SRV_MODES:
+            ops.append("srv %s 3000 %s" % (mode, seq))
+    for i, k in enumerate(SRV_ERR):
+        ops.append("srv %s 3000 threads %s scopes" % (["all", "each", "3", "plus7"][i % 4], k))
+    return ops
+
+
+def srv_oracle(ctx, op, r, dist, nontrivial):
+    f = op.split()
+    mode, specs = f[1], f[3:]
+    names = [x.split(":")[0] for x in specs]
+    if r.startswith("CRASH"):
+        kv = parse_kv(r)
+        if kv.get("why") == "nil-pointer-dereference" and kv.get("where") == "newErrorResponse":
+            bad = [n for n in names if n in SRV_ERR]
+            ctx.violation("srv:error-response-nil-pointer-dereference",
+                          "request %r makes the DAP server process crash: newErrorResponse writes er.Body.Error.Format through the nil "
+                          "pointer ErrorResponseBody.Error, so no ErrorResponse is ever sent (%s)" % (bad[:1], op), {"op": op, "impl": r})
+        else:
+            ctx.violation("srv:crash-%s-%s" % (kv.get("why"), kv.get("where")), "%s -> %s" % (op, r[:300]), {"op": op, "impl": r})
+        return
+    if not r.startswith("chunks="):
+        ctx.violation("srv:%s" % r.split()[0].lower(), "%s -> %s" % (op, r[:300]), {"op": op, "impl": r})
+        return
+    kv = parse_kv(r)
+    items = [] if kv["got"] == "none" else kv["got"].split(",")
+    resp = {}
+    for it in items:
+        p = it.split(":")
+        if p[0] == "R":
+            resp.setdefault(int(p[1]), []).append((p[2], p[3]))
+    coalesced = mode in ("all", "2x", "4096", "64") or mode.startswith("plus")
+    missing = [(i + 1, n) for i, n in enumerate(names) if i + 1 not in resp]
+    if missing:
+        ctx.violation("srv:request-without-response" + ("-when-one-read-carries-several-messages" if coalesced else ""),
+                      "requests %s delivered to handleConnection with chunking %r (%s writes): no response for %s within %s ms; got %s" % (
+                          " ".join(specs), mode, kv["chunks"], missing, f[2], kv["got"][:300]), {"op": op, "impl": r})
+    for i, n in enumerate(names):
+        rs = resp.get(i + 1, [])
+        if len(rs) > 1:
+            ctx.violation("srv:duplicate-response", "%s: request seq %d answered %d times: %s" % (op, i + 1, len(rs), kv["got"][:300]), {"op": op, "impl": r})
+        for cmd, ok in rs:
+            if cmd != n or ok != ("true" if n in SRV_OK else "false"):
+                ctx.violation("srv:response-does-not-match-request", "%s: request seq %d (%s) answered by %s success=%s" % (op, i + 1, n, cmd, ok),
+                              {"op": op, "impl": r})
+    extra = [k for k in resp if not 1 <= k <= len(names)]
+    if extra:
+        ctx.violation("srv:response-for-unknown-request", "%s -> %s" % (op, kv["got"][:300]), {"op": op, "impl": r})
+    if kv["leftover"] != "0" or any(it.startswith(("READERR", "OTHER")) for it in items):
+        ctx.violation("srv:incomplete-or-undecodable-frame-written", "%s -> %s" % (op, r[:300]), {"op": op, "impl": r})
+    if not missing:
+        for ev, req in (("E:initialized", "initialize"), ("E:thread", "configurationDone")):
+            if items.count(ev) != names.count(req):
+                ctx.violation("srv:event-count", "%s: %d %s events for %d %s requests" % (op, items.count(ev), ev, names.count(req), req),
+                              {"op": op, "impl": r})
+    dist["srv_requests"] = dist.get("srv_requests", 0) + len(names)
+    nontrivial.add(("srv", mode, tuple(names)))
+
+
 def regenerate(ctx, harness):
     rc, out, err = ctx.run_bin(harness, ["gen"])
     if rc != 0 or "def requestTable" not in out:
@@ -215,6 +298,21 @@ def run(ctx):
         ops = load_corpus() + gen_ops(ctx, types)
     rc, out, err = ctx.run_bin(harness, input_text="\n".join(ops) + "\n", timeout=1500)
     impl = out.splitlines()
+    # the server-glue stream: independent child processes, run 8 harnesses in parallel
+    srv_ops = [] if ctx.replay and not (ops and ops[0].startswith("srv")) else (ops if ctx.replay else gen_srv_ops(ctx))
+    if ctx.replay and srv_ops:
+        ops, impl = [], []
+    srv_out = {}
+    if srv_ops:
+        import concurrent.futures as cf
+        parts = [srv_ops[i::8] for i in range(8)]
+        with cf.ThreadPoolExecutor(8) as ex:
+            futs = {ex.submit(ctx.run_bin, harness, (), "\n".join(p) + "\n", 1500): p for p in parts if p}
+            for fu in cf.as_completed(futs):
+                p = futs[fu]
+                lines = fu.result()[1].splitlines()
+                for o, l in zip(p, lines + ["<missing>"] * (len(p) - len(lines))):
+                    srv_out[o] = l
 
     nontrivial = set()
     dist = {"base": 0, "rawbase": 0, "basebig": 0, "kind": 0, "msg": 0, "base_contents": 0, "messages": 0,
@@ -271,6 +369,10 @@ def run(ctx):
                     key = "msg:%s:%s" % ("-".join(r.split()[:2]).lower(), kv.get("err", "")[:60])
                 ctx.violation(key, "%s -> %s" % (op, r[:300]), {"op": op, "impl": r})
 
+    dist["srv"] = len(srv_ops)
+    for o in srv_ops:
+        srv_oracle(ctx, o, srv_out.get(o, "<missing>"), dist, nontrivial)
+
     missing = [t[2] for t in types if t[2] not in types_seen]
     if missing and not ctx.replay and not ctx.violations:
         raise vlib.InfraError("registered types never exercised: %s" % missing[:10])
@@ -293,9 +395,14 @@ def run(ctx):
     pairs = list(zip(ops, impl))
     samples = [{"op": o[:160], "impl": r[:160]} for o, r in pairs[:: max(1, len(pairs) // 12)]][:12]
     cov = {
-        "evaluations": len(ops) + dist["messages"],
+        "evaluations": len(ops) + dist["messages"] + dist.get("srv_requests", 0),
         "distinct_nontrivial": len(nontrivial),
-        "rule": "base: 1-8 contents (pieces CR/LF/CRLFCRLF/'Content-Length: '/JSON, random bytes biased to CR LF digits, lengths at "
+        "rule": "srv (deterministic, both tiers): 5 request sequences (incl. a message larger than the 4096-byte bufio buffer and the "
+                "setBreakpoints/configurationDone/continue flow) delivered to the REAL server loop internal/dap.handleConnection over net.Pipe "
+                "under 15 chunkings (all requests in one write, one per write, two per write, every 1/2/3/7/64/4096 bytes, split inside every "
+                "header, inside every body, a whole message plus 1/7/20/40 bytes of the next), + the 28 request kinds answered with an "
+                "ErrorResponse; oracle: exactly one response per request with its request_seq, command and success flag, expected events, every "
+                "byte written by the server belongs to a complete decodable frame, no crash. base: 1-8 contents (pieces CR/LF/CRLFCRLF/'Content-Length: '/JSON, random bytes biased to CR LF digits, lengths at "
                 "digit-count boundaries, every length 0..130) through the real WriteBaseMessage then ReadBaseMessage over bufio(16/17/64/4096) "
                 "over a chunking io.Reader (incl. 1-byte reads); rawbase: truncations at every position, bit flips, bad numbers (sign, space, "
                 "hex, non-ASCII digits, leading zeros, 2^63 boundary, over 4 MiB), bad header names, bad delimiters, short/long content, junk; "
